@@ -766,6 +766,15 @@ def _arg_combine(data, axis, argfunc, keepdims=False):
     arg = data["arg"]
     if axis is None:
         local_args = argfunc(vals, axis=axis, keepdims=keepdims)
+        # Blocks are not laid out in flat-index order: among tied extrema take
+        # the one with the smallest flat index (NumPy returns the first occurrence)
+        flat_vals = vals.ravel()
+        flat_arg = arg.ravel()
+        best = flat_vals[np.asarray(local_args).ravel()[0]]
+        ties = np.flatnonzero((flat_vals == best) | ((flat_vals != flat_vals) & (best != best)))
+        if len(ties) > 1:
+            first = ties[np.argmin(flat_arg[ties])]
+            local_args = local_args * 0 + first
         vals = vals.ravel()[local_args]
         arg = arg.ravel()[local_args]
     else:
